@@ -49,12 +49,12 @@ def write_cfg(ctx, name, invariants=MC_INVARIANTS, bug=None, **consts):
     return path
 
 
-def nonvacuity(ctx, bugs, alpha="q", maxlen=3):
+def nonvacuity(ctx, bugs, alpha="q", maxlen=3, invariants=MC_INVARIANTS):
     """Each Bug_* switch must make TLC produce a counterexample on the model."""
     res = {}
     for b in bugs:
         name = "MC_Markup_%s.cfg" % b
-        cfg = write_cfg(ctx, name, bug=b, MaxLen=maxlen, Alpha='"%s"' % alpha, EmitBeh="FALSE")
+        cfg = write_cfg(ctx, name, invariants=invariants, bug=b, MaxLen=maxlen, Alpha='"%s"' % alpha, EmitBeh="FALSE")
         r = ctx.tlc("MC_Markup", cfg=name, files=[(name, cfg)], workers=4, must_pass=False, timeout=600,
                     label="MC_Markup with %s (must fail)" % b)
         res[b] = sorted(set(r.violated))
@@ -161,14 +161,17 @@ def report_diffs(ctx, diffs, origin, prop_scope=None):
     for d in diffs:
         sig = classify(d["items"], d["exp"], d["got"])
         per_sig.setdefault(sig, []).append(d)
-    for sig, ds in sorted(per_sig.items()):
+    for ds in per_sig.values():
         ds.sort(key=lambda d: len(d["input"]))
-        for d in ds[:2]:
-            line = cps_to_str(d["input"])
-            ctx.violation({"kind": origin, "via": d.get("via", "direct"), "items": d["items"], "input": d["input"],
-                           "exp": d["exp"], "got": d["got"]},
-                          "[%s, %d case(s) of this class] %s" % (origin, len(ds), describe(line, d["exp"], d["got"])),
-                          signature=sig)
+    for rank in (0, 1):      # the shortest instance of every class first, then a second instance of each
+        for sig, ds in sorted(per_sig.items()):
+            if rank < len(ds):
+                d = ds[rank]
+                line = cps_to_str(d["input"])
+                ctx.violation({"kind": origin, "via": d.get("via", "direct"), "items": d["items"], "input": d["input"],
+                               "exp": d["exp"], "got": d["got"]},
+                              "[%s, %d case(s) of this class] %s" % (origin, len(ds), describe(line, d["exp"], d["got"])),
+                              signature=sig)
     return {sig: len(ds) for sig, ds in per_sig.items()}
 
 
